@@ -599,9 +599,9 @@ Lemma unit_of_aligned l nS :
   fidx (s_transforms (l_well l)) k_strt (s_items (l_well l)) = Some nS -> unit_of l nS = aligned_unit l.
 Proof. intro H. unfold unit_of, aligned_unit. rewrite sect_find_nth, H. reflexivity. Qed.
 
-Lemma need_of_ext l l' ii :
+Lemma need_of_ext f l l' ii :
   l_well l = l_well l' -> l_curves l = l_curves l' -> l_data l = l_data l' ->
-  need_of numeq (mkmlas l ii) = need_of numeq (mkmlas l' ii).
+  need_of fmtv numeq f (mkmlas l ii) = need_of fmtv numeq f (mkmlas l' ii).
 Proof. intros H1 H3 H2. unfold need_of, index_of. cbn [m_las m_index_initial]. rewrite H1, H2, H3. reflexivity. Qed.
 
 Lemma aligned_unit_ext l l' :
@@ -610,44 +610,46 @@ Proof. intros H1 H2. unfold aligned_unit, c0unit_of. rewrite H1, H2. reflexivity
 
 (* when lasio decides to refresh.  With index_initial set, writer.write evaluates las.index
    unguarded: the three lemmas about that case carry "at least one curve" (without a curve the
-   call raises IndexError: need_no_curve, write_no_curve_raises). *)
-Lemma need_created m : m_index_initial m = None -> need_of numeq m = Some true.
+   call raises IndexError: need_no_curve, write_no_curve_raises).
+   f is the format of the index column: STOP is compared with the value that format prints
+   for the last cell of index_initial (float(f % last) != STOP.value), not with the cell. *)
+Lemma need_created f m : m_index_initial m = None -> need_of fmtv numeq f m = Some true.
 Proof. unfold need_of. intros ->. reflexivity. Qed.
 
-Lemma need_changed m iv lastc rr svv :
+Lemma need_changed f m iv lastc rr svv :
   m_index_initial m = Some iv -> s_items (l_curves (m_las m)) <> [] -> rev iv = lastc :: rr ->
   item_value_by (s_transforms (l_well (m_las m))) k_stop (s_items (l_well (m_las m))) = Some svv ->
   cells_equal numeq iv (index_of (m_las m)) = false ->
-  need_of numeq m = Some true.
+  need_of fmtv numeq f m = Some true.
 Proof.
   unfold need_of. intros -> Hc -> H1 H2. fold k_stop. rewrite H1, H2.
   destruct (s_items (l_curves (m_las m))); [contradiction|reflexivity].
 Qed.
 
-Lemma need_stop_differs_int m iv t rr z :
+Lemma need_stop_differs_int f m iv t rr z :
   m_index_initial m = Some iv -> s_items (l_curves (m_las m)) <> [] -> rev iv = CNum t :: rr ->
   item_value_by (s_transforms (l_well (m_las m))) k_stop (s_items (l_well (m_las m))) = Some (VInt z) ->
-  numeq t (z_to_str z) = false ->
-  need_of numeq m = Some true.
+  numeq (fmtv f t) (z_to_str z) = false ->
+  need_of fmtv numeq f m = Some true.
 Proof.
   unfold need_of. intros -> Hc -> H1 H2. fold k_stop. rewrite H1, H2. rewrite orb_true_r.
   destruct (s_items (l_curves (m_las m))); [contradiction|reflexivity].
 Qed.
 
-Lemma need_stop_differs_float m iv t rr x :
+Lemma need_stop_differs_float f m iv t rr x :
   m_index_initial m = Some iv -> s_items (l_curves (m_las m)) <> [] -> rev iv = CNum t :: rr ->
   item_value_by (s_transforms (l_well (m_las m))) k_stop (s_items (l_well (m_las m))) = Some (VFloat x) ->
-  numeq t x = false ->
-  need_of numeq m = Some true.
+  numeq (fmtv f t) x = false ->
+  need_of fmtv numeq f m = Some true.
 Proof.
   unfold need_of. intros -> Hc -> H1 H2. fold k_stop. rewrite H1, H2. rewrite orb_true_r.
   destruct (s_items (l_curves (m_las m))); [contradiction|reflexivity].
 Qed.
 
-Lemma need_stop_text m iv lastc rr s :
+Lemma need_stop_text f m iv lastc rr s :
   m_index_initial m = Some iv -> s_items (l_curves (m_las m)) <> [] -> rev iv = lastc :: rr ->
   item_value_by (s_transforms (l_well (m_las m))) k_stop (s_items (l_well (m_las m))) = Some (VStr s) ->
-  need_of numeq m = Some true.
+  need_of fmtv numeq f m = Some true.
 Proof.
   unfold need_of. intros -> Hc -> H1. fold k_stop. rewrite H1.
   destruct (s_items (l_curves (m_las m))); [contradiction|].
@@ -655,8 +657,8 @@ Proof.
 Qed.
 
 (* no curve and index_initial set: `las.index` raises IndexError *)
-Lemma need_no_curve m iv :
-  m_index_initial m = Some iv -> s_items (l_curves (m_las m)) = [] -> need_of numeq m = None.
+Lemma need_no_curve f m iv :
+  m_index_initial m = Some iv -> s_items (l_curves (m_las m)) = [] -> need_of fmtv numeq f m = None.
 Proof. unfold need_of. intros -> ->. reflexivity. Qed.
 
 Theorem write_units_aligned o m text m' :
@@ -702,7 +704,7 @@ Proof. intro H. unfold step_of, strt_of, stop_of. rewrite H. reflexivity. Qed.
 
 Theorem write_truth o m text m' a rest z rr :
   write o m = WOk text m' ->
-  need_of numeq m = Some true ->
+  need_of fmtv numeq (col_fmt o 0%nat) m = Some true ->
   index_of (m_las m) = CNum a :: rest -> rev (index_of (m_las m)) = CNum z :: rr ->
   let trw := s_transforms (l_well (m_las m)) in
   let u := aligned_unit (m_las m) in
@@ -722,7 +724,7 @@ Proof.
   cbn [m_las m_index_initial] in *. cbv zeta.
   assert (need = true).
   { destruct m as [l0 ii]. cbn [m_las m_index_initial] in *.
-    rewrite (need_of_ext l1 l0 ii F1 F2 F6), Hneed in Hn. injection Hn as <-. reflexivity. }
+    rewrite (need_of_ext _ l1 l0 ii F1 F2 F6), Hneed in Hn. injection Hn as <-. reflexivity. }
   subst need.
   assert (EI : index_of l1 = index_of (m_las m)) by (unfold index_of; rewrite F2, F6; reflexivity).
   rewrite <- (aligned_unit_ext l1 (m_las m) F1 F2), <- F1, <- (unit_of_aligned l1 nS HS).
@@ -738,7 +740,7 @@ Qed.
 Theorem write_truth_texts o m text m' a rest z rr :
   (forall t, fmtv (col_fmt o 0%nat) t <> []) ->
   write o m = WOk text m' ->
-  need_of numeq m = Some true ->
+  need_of fmtv numeq (col_fmt o 0%nat) m = Some true ->
   index_of (m_las m) = CNum a :: rest -> rev (index_of (m_las m)) = CNum z :: rr ->
   let trw := s_transforms (l_well (m_las m)) in
   exists s p e,
@@ -769,7 +771,7 @@ Qed.
    increment is NaN), whatever the unit *)
 Theorem write_truth_step_nan o m text m' a rest z rr :
   write o m = WOk text m' ->
-  need_of numeq m = Some true ->
+  need_of fmtv numeq (col_fmt o 0%nat) m = Some true ->
   index_of (m_las m) = CNum a :: CNaN :: rest -> rev (index_of (m_las m)) = CNum z :: rr ->
   str_eqb (fmtv (col_fmt o 0%nat) a) (fmtv (col_fmt o 0%nat) z) = false ->
   exists e, sect_find (s_transforms (l_well (m_las m))) k_step (s_items (l_well (m_las m'))) = Some e /\ i_value e = VStr (s2l "nan").
@@ -789,7 +791,7 @@ Proof.
   destruct (write_ok_inv _ _ _ _ E) as (wrap & l1 & v & l2 & H1 & _ & H3 & _ & _).
   destruct (wrap_step_fields _ _ _ _ H1) as (_ & F2 & _).
   destruct (refresh_inv _ _ _ _ _ _ H3) as (need & nS & nP & nE & Hn & _).
-  rewrite (need_no_curve (mkmlas l1 (m_index_initial m)) iv Hi) in Hn; [discriminate|].
+  rewrite (need_no_curve _ (mkmlas l1 (m_index_initial m)) iv Hi) in Hn; [discriminate|].
   cbn [m_las]. rewrite F2. exact Hc.
 Qed.
 
